@@ -589,16 +589,30 @@ Definition graph_build (c : cfg) h g (gi go : list vid) (d : list (option name *
     let h3 := reg_values c h2 g (map snd (inits (how h2) g)) in
     g_extend c h3 g ns
   end.
+(* FIXED behaviour of Graph.__init__ (proposed_fixes/C06-graph-ctor-validate-first.diff): every argument is validated,
+   in the order in which the constructor would have failed and with the same exception types, before anything is adopted *)
+Fixpoint first_bad_init (h : heap) (d : list (option name * vid)) : option exn :=
+  match d with
+  | [] => None
+  | (None, _) :: _ => Some TypeError
+  | (Some NEmpty, _) :: _ => Some ValueError
+  | (Some _, v) :: t => if hp h v then Some ValueError else first_bad_init h t
+  end.
+Definition graph_new_reject (h : heap) (gi go : list vid) (d : list (option name * vid)) (ns : list nid) : option exn :=
+  let fresh v := match vgraph (how h) v with None => true | Some _ => false end in
+  if negb (forallb (fun v => fresh v && negb (hp h v)) gi) then Some ValueError
+  else if negb (forallb fresh go) then Some ValueError
+  else if negb (forallb (fun kv => fresh (snd kv)) d) then Some ValueError
+  else match first_bad_init h d with
+       | Some e => Some e
+       | None => if forallb (fun n => negb (is_some (ngraph (hng h) n))) ns then None else Some ValueError
+       end.
 Definition graph_new (c : cfg) h g (gi go ginit : list vid) (ns : list nid) :=
   if negb (blank_graph h g) then R h OtherError else
   let s0 := how h in
   let d := dict_of s0 ginit [] in
-  let fresh v := match vgraph s0 v with None => true | Some _ => false end in
-  let valid := forallb (fun v => fresh v && negb (hp h v)) gi && forallb fresh go
-               && forallb (fun kv => match fst kv with None | Some NEmpty => false | _ => true end
-                                     && fresh (snd kv) && negb (hp h (snd kv))) d
-               && forallb (fun n => negb (is_some (ngraph (hng h) n))) ns in
-  if negb valid && c SGraphNew then R h ValueError else               (* FIXED: validate everything first *)
+  let rej := graph_new_reject h gi go d ns in
+  if is_some rej && c SGraphNew then R h (match rej with Some e => e | None => ValueError end) else   (* FIXED *)
   let '(h', r) := graph_build c h g gi go d ns in                     (* CURRENT *)
   match r with
   | Ok _ => K (with_nm h' (nm_bump_g (hnm h') g))
